@@ -1034,25 +1034,18 @@ func c05OrderCase(ctx *core.Ctx, b *c05Batch, k *c05Kind, vs []c05Val, arr strin
 		})
 		return
 	}
-	orderHasNaN := false
-	for _, v := range vs {
-		orderHasNaN = orderHasNaN || k.isNaN(v)
-	}
 	b.ask("c05.order "+k.drv+" "+k.texts(vs), func(ans string) {
 		if ans != fmt.Sprintf("ok %d", got) {
-			key, what := "order-mirror "+k.name, "orderOf kernel differs from the Lean mirror"
-			if lanes := 512 / max(k.width, 1); k.width > 0 && n > 0 && n%(lanes*(lanes-1)) == 0 && !orderHasNaN {
-				// the AVX-512 loop advances by lanes-1 and loads `lanes` values: when the length is a
-				// multiple of lanes*(lanes-1) (56 for 64-bit, 240 for 32-bit) the last load reads one
-				// element past the end of the slice and the result depends on that memory
-				key, what = "orderof-kernel-reads-past-end", "orderOf assembly kernel differs from the Lean mirror on an input whose length is a multiple of lanes*(lanes-1): the last vector load reads one element past the end"
+			d := map[string]any{"op": "order", "kind": k.name, "values": k.texts(vs), "impl": got, "model": ans, "build": ctx.Variant}
+			if hasNaN {
+				// Outside the property: the float/double indexers no longer call orderOf when a bound
+				// is NaN (they claim no order). On such inputs the AVX-512 kernels (ordered/unordered
+				// compare predicates in the vector part, UCOMISS in the scalar tail) still differ from
+				// the portable orderOf that the mirror transliterates.
+				ctx.Observe("orderof-float-nan-differs-from-portable", "orderOfFloat32/64 called directly on an input with NaN entries differs from the portable orderOf (no caller passes NaN any more)", d)
+				return
 			}
-			if orderHasNaN {
-				// the mirror transliterates order_purego.go; the AVX-512 kernels use ordered/unordered
-				// compare predicates and treat NaN entries differently from the portable code
-				key, what = "orderof-float-nan-differs-from-portable", "orderOfFloat32/64 on an input with NaN entries differs from the Lean mirror of the portable orderOf"
-			}
-			ctx.Fail("L2", key, what, map[string]any{"op": "order", "kind": k.name, "values": k.texts(vs), "impl": got, "model": ans, "build": ctx.Variant})
+			ctx.Fail("L2", "order-mirror "+k.name, "orderOf kernel differs from the Lean mirror", d)
 		}
 	})
 }
@@ -1256,18 +1249,21 @@ func c05IndexCase(ctx *core.Ctx, b *c05Batch, k *c05Kind, lim int, pages []*[2]c
 		}
 	}
 	c05OrderClaim(ctx, k, int(fi.BoundaryOrder), fi.NullPages, mins, maxs, detail(nil))
-	// L2: the Lean mirrors of the numeric and byte-array indexers
-	if k.drv == "" || (k.isBytes() && k.drv != "bytes") {
+	// L2: the Lean mirrors of the numeric, byte-array and fixed-length indexers (the binary decimal
+	// indexer has no mirror: it is checked by the oracle above only)
+	drvKind := k.drv
+	switch {
+	case k.drv == "" || k.drv == "dec":
 		return
+	case k.drv == "flba" && k.size == 16:
+		drvKind = "be128"
+	case k.drv == "flba":
+		drvKind = fmt.Sprintf("flba%d", k.size)
 	}
 	want := fmt.Sprintf("ok %d %s %s", int(fi.BoundaryOrder), k.texts(mins), k.texts(maxs))
-	b.ask(fmt.Sprintf("c05.index %s %d %s", k.drv, lim, c05PagesText(k, pages)), func(ans string) {
+	b.ask(fmt.Sprintf("c05.index %s %d %s", drvKind, lim, c05PagesText(k, pages)), func(ans string) {
 		if ans != want {
-			key, what := "indexer-mirror "+k.name, "ColumnIndexer output differs from the Lean mirror"
-			if hasNaN {
-				key, what = "orderof-float-nan-differs-from-portable", "boundary order of a float column index with all-NaN pages differs from the Lean mirror of the portable orderOf"
-			}
-			ctx.Fail("L2", key, what, detail(map[string]any{"impl": want, "model": ans, "build": ctx.Variant}))
+			ctx.Fail("L2", "indexer-mirror "+k.name, "ColumnIndexer output differs from the Lean mirror", detail(map[string]any{"impl": want, "model": ans, "build": ctx.Variant}))
 		}
 	})
 }
